@@ -338,7 +338,7 @@ def run_alpha_case(ctx, case):
 
 def run(ctx):
     rng = ctx.rng(1)
-    nrep = 120 if ctx.tier == "quick" else 1200
+    nrep = 120 if ctx.tier == "quick" else 5000
     for it in range(nrep):
         if ctx.out_of_time():
             ctx.notes.append(f"stopped at {it}")
